@@ -39,6 +39,10 @@ fn spaces(tier: Tier) -> Vec<Space> {
             Space { alpha: "SAME", depth: 3 },
             Space { alpha: "SELFX", depth: 2 },
             Space { alpha: "SELFX", depth: 3 },
+            Space { alpha: "CASC", depth: 2 },
+            Space { alpha: "CASC", depth: 3 },
+            Space { alpha: "QSYM", depth: 3 },
+            Space { alpha: "QSYM", depth: 4 },
             Space { alpha: "A1", depth: 2 },
             Space { alpha: "CORE", depth: 3 },
         ],
@@ -58,6 +62,10 @@ fn spaces(tier: Tier) -> Vec<Space> {
             Space { alpha: "SAME", depth: 3 },
             Space { alpha: "SELFX", depth: 2 },
             Space { alpha: "SELFX", depth: 3 },
+            Space { alpha: "CASC", depth: 2 },
+            Space { alpha: "CASC", depth: 3 },
+            Space { alpha: "QSYM", depth: 3 },
+            Space { alpha: "QSYM", depth: 4 },
             Space { alpha: "T3", depth: 2 },
             Space { alpha: "BIND", depth: 2 },
             Space { alpha: "CORE", depth: 3 },
@@ -68,6 +76,7 @@ fn spaces(tier: Tier) -> Vec<Space> {
             Space { alpha: "SHARE", depth: 4 },
             Space { alpha: "SAME", depth: 4 },
             Space { alpha: "SELFX", depth: 4 },
+            Space { alpha: "CASC", depth: 4 },
             Space { alpha: "MICRO", depth: 5 },
             Space { alpha: "CORE", depth: 4 },
         ],
@@ -289,7 +298,7 @@ impl Prop for Inv {
         let mut out = Exec::default();
         // the analysis variant doubles the cost: it is run for the small, interaction-rich alphabets
         let segname = segs[seg].seg.name.clone();
-        let analysis_too = segname.starts_with("SHARE") || segname.starts_with("SAME") || segname.starts_with("SELFX") || segname.starts_with("MICRO") || segname == "CORE^2" || segname.starts_with("SELF^1") || (tier == Tier::Thorough && (segname == "CORE^3" || segname.starts_with("T3")));
+        let analysis_too = segname.starts_with("SHARE") || segname.starts_with("SAME") || segname.starts_with("SELFX") || segname.starts_with("CASC") || segname.starts_with("MICRO") || segname == "CORE^2" || segname.starts_with("SELF^1") || (tier == Tier::Thorough && (segname == "CORE^3" || segname.starts_with("T3")));
         for (hist, with_analysis) in variants(&ops, flips).into_iter().flat_map(|h| if analysis_too { vec![(h.clone(), false), (h, true)] } else { vec![(h, false)] }) {
             let h2 = hist.clone();
             let r = fresh_thread(move || if with_analysis { run_one::<crate::props::equiv::MinSize>(&h2) } else { run_one::<()>(&h2) });
